@@ -384,6 +384,7 @@ def modelStep (s : St) (op impl : List String) : Option (St × String) :=
     match etag? s e, fault? f with
     | some e, some f => let (s', r) := delete s (unq id) e f; some (s', resStr r)
     | _, _ => none
+  | ["tick"] => some (s, "ok")
   | ["get", id] =>
     let (s', r) := get s (unq id)
     some (s', match r with
@@ -458,6 +459,8 @@ def step (st : St') (op impl : List String) : St' × Verdict :=
   | _ =>
     if st.dead then (st, .ok) else
     if impl = ["aba"] then ({ st with dead := true }, .ok) else
+    if (impl.head?.getD "").startsWith "tagclash:" then
+      ({ st with dead := true }, .oracle s!"C16: two versions of the token file that differ in size or modification time were served under the same version tag (tag : size-mtime of the first : size-mtime of the second): {(impl.head?.getD "").drop 9}: a conditional update or delete holding the older version's tag would be accepted") else
     match splitObs impl with
     | none => (st, .badop "no observation part")
     | some (res, ob) =>
